@@ -929,7 +929,7 @@ func (s *alphSim) release(p *parkedReq) {
 
 // pump releases parked requests and advances the fake clock until `until`.
 func (s *alphSim) pump(until time.Duration) {
-	guard := 0
+	guard, aborted := 0, 0
 	for {
 		synctest.Wait()
 		if p := s.pick(""); p != nil {
@@ -939,6 +939,13 @@ func (s *alphSim) pump(until time.Duration) {
 				s.res.HarnessErr = "pump: action cap reached"
 				s.aborting = true
 				return
+			}
+			if s.aborting {
+				// the run is over (a violation was recorded); a watcher that keeps asking regardless
+				// is not fed any further
+				if aborted++; aborted > 2000 {
+					return
+				}
 			}
 			continue
 		}
